@@ -395,7 +395,13 @@ def _check_install(run: Run, inst: Install, res: Resolver) -> None:
         emit_ok = True
         for n in first_mut:
             conds = branch_conditions(cfg, n)
-            has_xor = any(val is False and isinstance(t, ast.BoolOp) and isinstance(t.op, ast.And) and {"content", "changes"} <= names_in(t) and sum(isinstance(c, ast.Compare) and isinstance(c.ops[0], ast.IsNot) for c in t.values) == 2 for t, val in conds)
+            # the two payload variables are those bound from params.get("content") / params.get("changes"), whatever they are called
+            pv = {}
+            for a in ast.walk(fi.node):
+                if isinstance(a, ast.Assign) and len(a.targets) == 1 and isinstance(a.targets[0], ast.Name) and isinstance(a.value, ast.Call) and isinstance(a.value.func, ast.Attribute) and a.value.func.attr == "get" and a.value.args and isinstance(a.value.args[0], ast.Constant) and a.value.args[0].value in ("content", "changes"):
+                    pv[a.value.args[0].value] = a.targets[0].id
+            payload = set(pv.values()) if len(pv) == 2 else {"content", "changes"}
+            has_xor = any(val is False and isinstance(t, ast.BoolOp) and isinstance(t.op, ast.And) and payload <= names_in(t) and sum(isinstance(c, ast.Compare) and isinstance(c.ops[0], ast.IsNot) for c in t.values) == 2 for t, val in conds)
             xor_ok = xor_ok and has_xor
             doms = cfg.dominators()[n]
             has_emit = False
@@ -462,8 +468,20 @@ def _feeds_canonical_hash(call: ast.Call) -> bool:
         for t in par.targets:
             if isinstance(t, ast.Subscript) and isinstance(t.slice, ast.Constant) and t.slice.value == "canonical_hash":
                 return True
-            if isinstance(t, ast.Name) and t.id == "canonical_hash":
-                return True
+            if isinstance(t, ast.Name):
+                if t.id == "canonical_hash":
+                    return True
+                # a local later placed under the key "canonical_hash" of the returned envelope
+                fn = par
+                while fn is not None and not isinstance(fn, (ast.FunctionDef, ast.AsyncFunctionDef)):
+                    fn = getattr(fn, "_parent", None)
+                for d in ast.walk(fn) if fn is not None else []:
+                    if isinstance(d, ast.Dict):
+                        for k, v in zip(d.keys, d.values):
+                            if isinstance(k, ast.Constant) and k.value == "canonical_hash" and isinstance(v, ast.Name) and v.id == t.id:
+                                return True
+                    if isinstance(d, ast.Assign) and isinstance(d.value, ast.Name) and d.value.id == t.id and any(isinstance(x, ast.Subscript) and isinstance(x.slice, ast.Constant) and x.slice.value == "canonical_hash" for x in d.targets):
+                        return True
     if isinstance(par, ast.Dict):
         for k, v in zip(par.keys, par.values):
             if v is call and isinstance(k, ast.Constant) and k.value == "canonical_hash":
